@@ -11,6 +11,11 @@ from framelint.peval import peval_block, paths
 from .common import PB, call_name, norm_stmt
 
 MUL = ("c", ("g", "int"), (("p", 0),), ())
+from framelint.canon import canon_function as _canon_function_expanded
+
+def canon_function(fi, model=None, opts=None):   # rules of this file match shapes: look through every local
+    return _canon_function_expanded(fi, model, opts, expand=True)
+
 
 
 def _result_var(c: tuple):
